@@ -33,6 +33,7 @@ func c18(c *Ctx) {
 	}
 	c18R4(c, "R4")
 	c18R5(c, "R5")
+	sLockDiscipline(c, "R6/S-LOCK", "Raft")
 }
 
 func c18R1(c *Ctx, rule string) {
